@@ -284,9 +284,9 @@ class PSBT:
                     signature = Signature.parse(sig[:-1])
                     # the last byte of a partial signature is its hash type
                     hash_type = sig[-1]
-                    if (
-                        psbt_in.prev_out or psbt_in.prev_tx
-                    ) and psbt_in.use_segwit_signature():
+                    if psbt_in.prev_out or (
+                        psbt_in.prev_tx and psbt_in.use_segwit_signature()
+                    ):
                         # segwit
                         z = self.tx_obj.sig_hash_bip143(
                             i,
